@@ -30,7 +30,8 @@ CONSTANTS MaxFrames,       \* size of the frame table
           Dev_AfterSpawnKillDetached,  \* D3: after_spawn false: kill not awaited, pid dropped at once
           Dev_BuiltinIgnoreList,       \* D11: before_signal/after_signal/..stop raise counts as true
           Dev_AddEmptyNameReturns,     \* D9: add_watcher returns (not raises) ValueError for an empty name
-          Dev_QuitRefusedWhenBusy      \* D6: a termination signal that meets a busy slot is refused and dropped
+          Dev_QuitRefusedWhenBusy,     \* D6: a termination signal that meets a busy slot is refused and dropped
+          Dev_SocketEventStartsAll     \* D13: a socket event starts EVERY watcher, without waiting for any
 
 SIGKILL == 9
 SIGTERM == 15
@@ -152,6 +153,8 @@ HookOf(s, i, h) == s.cfg.ws[i].hooks[CHOOSE j \in 1..Len(s.cfg.ws[i].hooks) : s.
 BuiltinIgnore == {"before_stop", "after_stop", "before_signal", "after_signal", "extended_stats"}
 Decode(ws) == IF ws % 128 # 0 THEN -(ws % 128) ELSE (ws \div 256) % 256
 Stopped(s, i) == s.ws[i].st = "stopped"
+\* Watcher.pending_socket_event: an on_demand watcher acts only while the arbiter says a connection is waiting
+Pending(s, i) == s.ws[i].od /\ ~s.sockev
 KidR(s, f) == s.fr[LastKid(s, f)].r
 SetL(s, f, l) == [s EXCEPT !.fr[f].l = l]
 SetM(s, f, m) == [s EXCEPT !.fr[f].m = m]
@@ -425,7 +428,8 @@ P_spawn_process(s, f, ob) ==
 \* ---- Watcher.spawn_processes()     fr.a = number still to spawn (the range is evaluated once)
 P_spawn_processes(s, f) ==
   LET fr == s.fr[f] i == fr.w IN
-  CASE fr.pc = "0" -> Goto(SetA(s, f, s.ws[i].np - Len(s.ws[i].pr)), f, "1")
+  CASE fr.pc = "0" -> IF Pending(s, i) THEN Ret(SetSt(s, i, "stopped"), f, 1)      \* (whatever it still runs)
+                      ELSE Goto(SetA(s, f, s.ws[i].np - Len(s.ws[i].pr)), f, "1")
     [] fr.pc = "1" -> IF fr.a <= 0 THEN Ret(s, f, 1) ELSE Call(s, f, "2", "spawn_process", i, 0, 0, 0)
     [] fr.pc = "2" -> LET r == KidR(s, f) s1 == DropKids(s, f) IN
                       IF r = 0 THEN Call(s1, f, "2a", "_stop", i, 0, 0, 0)
@@ -449,7 +453,8 @@ P_stop(s, f) ==
 P_start(s, f) ==
   LET fr == s.fr[f] i == fr.w wr == s.ws[i] IN
   CASE fr.pc = "0" ->
-         IF ~Stopped(s, i)
+         IF Pending(s, i) THEN Ret(s, f, 1)
+         ELSE IF ~Stopped(s, i)
          THEN IF Len(wr.pr) < wr.np THEN Call(s, f, "n1", "reap_processes", i, 0, 0, 0) ELSE Ret(s, f, 1)
          ELSE CallHook(s, f, "1", i, "before_start", 0)
     [] fr.pc = "n1" -> Call(DropKids(s, f), f, "n2", "spawn_processes", i, 0, 0, 0)
@@ -612,10 +617,28 @@ P_manage_watchers(s, f) ==
                    Line("waitany", "", p, s.k[p].ws, "pid", ""))
     [] fr.pc = "1r" -> Call(s, f, "1d", "reap_process", fr.m[fr.p], fr.p, fr.a, 0)
     [] fr.pc = "1d" -> Goto(DropKids(s, f), f, "1")
-    [] fr.pc = "2" -> Goto(SetL(s, f, PrioSort(s, WatcherIdx(s), TRUE)), f, "3")
+    [] fr.pc = "2" -> Goto([SetL(s, f, PrioSort(s, WatcherIdx(s), TRUE)) EXCEPT !.fr[f].b = 0], f, "3")
     [] fr.pc = "3" -> IF fr.l = <<>> THEN Await(s, f, "4")
-                      ELSE Call(SetL(s, f, Tail(fr.l)), f, "3", "manage_processes", Head(fr.l), 0, 0, 0)
-    [] fr.pc = "4" -> Ret(DropKids(s, f), f, 1)
+                      ELSE LET i == Head(fr.l)      \* need_on_demand: an on_demand watcher that is stopped right now
+                               s1 == IF s.ws[i].od /\ Stopped(s, i) THEN [s EXCEPT !.fr[f].b = 1] ELSE s IN
+                           Call(SetL(s1, f, Tail(fr.l)), f, "3", "manage_processes", i, 0, 0, 0)
+    [] fr.pc = "4" -> IF fr.b = 0 THEN Ret(DropKids(s, f), f, 1)
+                      ELSE \* select() on the managed sockets, zero timeout
+                           Emit(Goto(DropKids(s, f), f, IF s.sockready THEN "5" ELSE "7"),
+                                Line("select", "", 0, 0, IF s.sockready THEN "ready" ELSE "none", ""))
+    \* as first coded (D13): socket_event = True; self._start_watchers() -- ALL watchers, NOT awaited --; socket_event =
+    \* False.  As repaired: the on_demand watchers only, awaited, the flag up for as long as that takes.
+    [] fr.pc = "5" -> IF Dev_SocketEventStartsAll
+                      THEN Call([s EXCEPT !.sockev = TRUE], f, "6", "a_start", 0, 0, 0, 0)
+                      ELSE Call([s EXCEPT !.sockev = TRUE], f, "6", "a_start", 0,
+                                MaskOf({ i \in WatcherIdx(s) : s.ws[i].od }), 0, 0)
+    [] fr.pc = "6" -> IF Dev_SocketEventStartsAll
+                      THEN LET kid == LastKid(s, f)
+                               s1 == IF s.fr[kid].done THEN Free(s, {kid}) ELSE [s EXCEPT !.fr[kid].par = 0] IN
+                           Ret([s1 EXCEPT !.sockev = FALSE, !.fr[f].kids = <<>>], f, 1)
+                      ELSE Await(s, f, "6b")
+    [] fr.pc = "6b" -> Ret([DropKids(s, f) EXCEPT !.sockev = FALSE], f, 1)
+    [] fr.pc = "7" -> Ret(s, f, 1)
 
 ReleaseCb == [kind |-> "release", f |-> 0, cid |-> "", mid |-> ""]
 \* util.synchronized: attach the release to the future, or release at once when the call completed synchronously
@@ -1113,6 +1136,8 @@ DaemonSignal(s, sig) ==
   IF sig = SIGWINCH THEN EnvLine(s, Line("dsig", "", 0, sig, "", ""))
   ELSE EnvLine(Enq(s, [kind |-> "dsig", f |-> 0, cid |-> "", mid |-> IF sig = SIGHUP THEN "hup" ELSE ""]),
                Line("dsig", "", 0, sig, "", ""))
+\* a connection is waiting on a managed socket (until a worker accepts it) / no longer
+SockReady(s, v) == EnvLine([s EXCEPT !.sockready = v], Line("sockev", "", 0, IF v THEN 1 ELSE 0, "", ""))
 \* the next process creations fail (exec error) / succeed as the environment decides
 AddFault(s, kind) == EnvLine([s EXCEPT !.faults = Append(@, kind)], Line("spawnfault", "", 0, 0, kind, ""))
 Boot(s) ==
